@@ -28,6 +28,7 @@ type Scenario struct {
 	Bound      int // preemption bound (<0: unbounded)
 	Record     bool
 	Poison     bool
+	YieldSeg   bool // with FSYield: only calls on segment files, the directory table and files outside the database directory are scheduling points (index/meta files are touched under DB.mu only and never by Backup/FileSize readers)
 	QuietPop   bool // reduction: iterator Next calls that only pop an already fetched item are not scheduling points
 	PostClose  []Op // operations main runs after the threads joined and after Close (use-after-close probes)
 }
@@ -52,7 +53,7 @@ func (sc *Scenario) JSON() map[string]interface{} {
 		ts = append(ts, w)
 	}
 	return map[string]interface{}{"name": sc.Name, "base": sc.Base, "cfg": sc.Cfg, "threads": ts, "fs_yield": sc.FSYield, "track_races": sc.TrackRaces,
-		"worker": sc.Worker, "tick_budget": sc.TickBudget, "bound": sc.Bound, "poison": sc.Poison, "quiet_pop": sc.QuietPop}
+		"worker": sc.Worker, "tick_budget": sc.TickBudget, "bound": sc.Bound, "poison": sc.Poison, "quiet_pop": sc.QuietPop, "yield_seg": sc.YieldSeg, "post_close": WordString(sc.PostClose)}
 }
 
 // Event is one completed operation of a thread.
@@ -172,6 +173,9 @@ func iterNext(it *pogreb.ItemIterator, quietPop bool) (k, v []byte, err error) {
 }
 
 func execOp(s *Sess, st *concState, thread, idx int, o Op, r *ConcRun) {
+	if o.Key != "" && s.Keys[o.Key] == nil {
+		panic(harnessErr("scenario uses key role " + o.Key + " which the base does not define"))
+	}
 	quietPop := st.quietPop
 	e := Event{Thread: thread, Idx: idx, Op: o, LogAt: len(s.FS.Log)}
 	e.Call = vsync.LogicalTime()
@@ -308,6 +312,12 @@ func RunScenario(sc *Scenario, base *Base, prefix []int, keepTrace bool, sleep .
 				vsync.RecordAccess(obj, write, lo, hi, label)
 			}
 			if sc.FSYield {
+				if sc.YieldSeg && obj != "dir" {
+					n := s.FS.NameOfObj(obj)
+					if strings.HasPrefix(n, DBPath+"/") && !strings.HasSuffix(n, refmodel.SegmentExt) {
+						return
+					}
+				}
 				vsync.Yield("fs:" + label)
 			}
 		}
